@@ -239,19 +239,14 @@ def _sim_setup(ir, endo, exo, order, intercept, ncol, values=None):
     return model, dbs, sim_span, start
 
 
-def check_simulate(run, ir, endo, exo, order, intercept, ncol=6):
-    """RedVAR.simulate lifted at fords.simulators.simulate_flat: with arbitrary initial conditions, exogenous data and residuals the simulated
-    path is the VAR recursion y_t = sum_l A_l y_{t-l} + B x_t + c + res_t -- hence, with the estimated residuals, the original data"""
+def lifted_simulate(ir, model, endo, exo, order, dbs, sim_span, start):
+    """run model.simulate(dbs, sim_span) with the dataslate lifted (initial conditions, exogenous data, residuals); returns (cap, path).
+    Raises whatever the real code raises."""
     from irispie.red_vars import _simulators as rs
     from irispie.fords import simulators as fs
     from irispie.dataslates import _variants as dv
-    key = f"simulate:endo={endo}:exo={exo}:order={order}:intercept={intercept}"
-    case = dict(kind="simulate", endo=list(endo), exo=list(exo), order=order, intercept=intercept, ncol=ncol)
-    finding = f"redvar:simulate:order={order}:exo={len(exo)}"
-    model, dbs, sim_span, start = _sim_setup(ir, endo, exo, order, intercept, ncol)
     cap = {}
     real = fs.simulate_flat
-
     real_exo = rs._simulate_exogenous_impact
 
     def ensure_lifted(ds_v):
@@ -283,10 +278,21 @@ def check_simulate(run, ir, endo, exo, order, intercept, ncol=6):
             var.data = S.shadow_float(var.data) if "out" in cap else cap["float_data"]
         return r
     proxy = npproxy.Proxy()
+    with npproxy.installed(proxy, fs, rs, extra=[(rs._simulators, "simulate_flat", lifted), (rs, "_simulate_exogenous_impact", lifted_exo)]), \
+            npproxy.installed(npproxy.Proxy(object_alloc=False), dv), S.Path() as path:
+        model.simulate(dbs, sim_span)
+    return cap, path
+
+
+def check_simulate(run, ir, endo, exo, order, intercept, ncol=6):
+    """RedVAR.simulate lifted at fords.simulators.simulate_flat: with arbitrary initial conditions, exogenous data and residuals the simulated
+    path is the VAR recursion y_t = sum_l A_l y_{t-l} + B x_t + c + res_t -- hence, with the estimated residuals, the original data"""
+    key = f"simulate:endo={endo}:exo={exo}:order={order}:intercept={intercept}"
+    case = dict(kind="simulate", endo=list(endo), exo=list(exo), order=order, intercept=intercept, ncol=ncol)
+    finding = f"redvar:simulate:order={order}:exo={len(exo)}"
+    model, dbs, sim_span, start = _sim_setup(ir, endo, exo, order, intercept, ncol)
     try:
-        with npproxy.installed(proxy, fs, rs, extra=[(rs._simulators, "simulate_flat", lifted), (rs, "_simulate_exogenous_impact", lifted_exo)]), \
-                npproxy.installed(npproxy.Proxy(object_alloc=False), dv), S.Path() as path:
-            model.simulate(dbs, sim_span)
+        cap, path = lifted_simulate(ir, model, endo, exo, order, dbs, sim_span, start)
     except S.SymbolicBranchError:
         raise
     except Exception as exc:
